@@ -185,7 +185,7 @@ class Exes:
                 p = subprocess.Popen(argv, executable=self.path[key], cwd=d, stdin=sin, stdout=sout,
                                      stderr=subprocess.PIPE, env=self.env)
                 try:
-                    o, e = p.communicate(data, timeout=120)
+                    o, e = p.communicate(data, timeout=20)
                     rc = p.returncode
                 except subprocess.TimeoutExpired:
                     p.kill()
@@ -337,8 +337,11 @@ def make_scenario(rng, tool, getopt, doc, in_mode, out_mode, bad=0.0, tag=''):
     elif r < 0.8:
         args = words + [inp]
     elif r < 0.9:
-        k = rng.randrange(0, len(words) + 1)
-        args = words[:k] + [inp] + words[k:]          # operand before options (glibc permutes, attgetopt stops)
+        # operand before options (glibc permutes, attgetopt stops); it may also land between an option and its
+        # separate value and be taken as the value — except that a device must never become the operand
+        ks = [k for k in range(len(words) + 1) if not (k < len(words) and words[k].startswith(b'/dev/'))]
+        k = rng.choice(ks)
+        args = words[:k] + [inp] + words[k:]
     elif r < 0.95:
         args = words + [b'--', inp]
     else:
